@@ -28,7 +28,7 @@ def adapt(run):
         elif k == "emit_raised":
             out.append({"ev": "EmitRaised", "e": ev["e"]})
         elif k == "deliver":
-            out.append({"ev": "CbEmit", "e": ev["x"][0] if len(ev["x"]) == 1 else -1})
+            out.append({"ev": "CbEmit", "e": ev["x"][0] if len(ev["x"]) == 1 else -1, "md": ev["md"]})
         elif k == "cons_done" and not sync:
             out.append({"ev": "ConsumerDone"})
         elif k == "release" and ev["site"].endswith(".cb"):
@@ -53,6 +53,8 @@ def attribute(run, trace, idx):
         return "C02", "end"
     ev = trace[idx - 1]
     k = ev["ev"]
+    if k == "CbEmit" and ev.get("md") != [ev.get("e")]:
+        return "C10", "element %s was delivered with metadata %s instead of its own" % (ev.get("e"), ev.get("md"))
     if k == "CbEmit":
         return "C02", "delivery %s not allowed by the specification here (order / duplication / taken too early)" % ev.get("e")
     if k in ("EmitDone", "EmitRaised", "ObsQ", "Put"):
@@ -143,7 +145,8 @@ def run(tier, seed, mutant=None, only_validate=False):
             else:
                 prop, why = attribute(r, t, got[0])
                 res.violations.append(dict(
-                    property=prop, engine="abuffer", clause=t[got[0] - 1]["ev"] if got[0] <= len(t) else "end",
+                    property=prop, also=["C05"] if prop == "C04" else [], engine="abuffer",
+                    clause=t[got[0] - 1]["ev"] if got[0] <= len(t) else "end",
                     what="buffer(%s) consumer=%s schedule '%s': event #%d %s -- %s" % (
                         r["cfg"].get("n"), r["cfg"]["cons"][0], " ".join(r["schedule"]), got[0],
                         t[got[0] - 1] if got[0] <= len(t) else "", why),
